@@ -72,7 +72,12 @@ def run(ctx):
     hs = [json.loads(h) for h in sorted(set(tlc.tla_string_to_py(h) for h in r.prints("HIST")))]
     rnd.shuffle(hs)
     n_pool, n_stress = (1500, 40) if quick else (20000, 400)
-    ptraces = ctx.drive("c19_pool", [], inp={"hists": hs[:n_pool], "stress": n_stress}, timeout=3000)
+    rc = ctx.mc("ObjPoolMC", "ObjPoolMC_copysim.cfg", workers=1, simulate="num=%d" % (150 if quick else 2500), depth=10, seed=ctx.seed + 3, must_hold=False)
+    if rc.violated or rc.errors:
+        raise RuntimeError("simulation of ObjPoolMC_copysim failed: %s" % rc.errors[:2])
+    ch = [json.loads(h) for h in sorted(set(tlc.tla_string_to_py(h) for h in rc.prints("HIST")))]
+    rnd.shuffle(ch)
+    ptraces = ctx.drive("c19_pool", [], inp={"hists": hs[:n_pool], "stress": n_stress, "copy_hists": ch[:900 if quick else 15000]}, timeout=3000)
     pverdicts = ctx.validate("ObjPoolTrace", ptraces, family="object-pool")
     fams = {}
     for t in ptraces:
@@ -110,7 +115,7 @@ def run(ctx):
     ctx.rule = ("registry: thread schedules generated by TLC from the lock-free variant of sys/CurveRegistry (3 threads), forced step by step "
                 "on the real registry through the guarded hooks on each of the nine curves (alias names mixed), plus free-running first-use races of "
                 "2-16 threads over 1-3 curves, in several fresh processes; pools: interleavings of new/use/copy/delete enumerated by TLC from "
-                "sys/ObjPool (depth 5, 3 objects; seed-dependent sample) over 34 object families (ciphers in every mode family, hashes, XOFs, MACs, "
+                "sys/ObjPool (depth 5, 3 objects; seed-dependent sample) and copy-heavy interleavings of depth 9 simulated by TLC (families with copy() only) over 43 object families (ciphers in every mode family, hashes, XOFs, MACs, "
                 "hash objects handed to RSA/ECDSA/EdDSA signers, EC points with in-place operators, Integers), executed sequentially and with one "
                 "thread per object, plus 2-16-thread stress pools; distinct = distinct (family, mode, event sequence)")
     ctx.assume("races inside native code are only sampled by the threaded runs; the exhaustive part concerns Python-level shared state")
